@@ -99,6 +99,7 @@ Lemma strict_save_backup dm pn k m : fault_strict (save_backup dm pn k m).
 Proof.
   unfold save_backup. destruct (has_dotdot _); [apply strict_mlift|].
   apply strict_mbind; [apply strict_mop; [apply keeps_mkdir|reflexivity]|].
+  intros _. apply strict_mbind; [apply strict_mop; [apply keeps_remove|reflexivity]|].
   intros _. apply strict_mop; [apply keeps_create|reflexivity].
 Qed.
 
@@ -109,7 +110,7 @@ Proof.
   apply strict_mbind; [apply strict_mlift|]. intros [ov' file].
   apply strict_mbind; [apply strict_save_backup|]. intros _.
   apply strict_mbind; [|intros; apply IH].
-  destruct (pf_rename _); [|apply strict_mret]. destruct (pf_new _); [|apply strict_mlift].
+  destruct (pf_rename _); [|apply strict_mret]. destruct (knew _); [|apply strict_mlift].
   destruct (ov_get _ _); [apply strict_save_backup|apply strict_mlift].
 Qed.
 
